@@ -1,4 +1,5 @@
 pub mod app;
+pub mod cc;
 pub mod ops;
 pub mod proj;
 pub mod script;
